@@ -20,9 +20,9 @@ CONSTANTS
   DlOffs = {1}
   MaxNow = 2
   Senders = {"u1"}
-  Recipients = {"u1", "module"}
+  Recipients = {"u1"}
   MaxSteps = 100
-  DonateAlso = {"module", "feepool"}
+  DonateAlso = {}
   WithUni = TRUE
 VIEW View
 INVARIANTS
